@@ -42,6 +42,10 @@ func drawToken(t *rapid.T, label string, n int) string {
 func drawPathQuery(t *rapid.T) string {
 	segs := rapid.IntRange(1, 4).Draw(t, "segs")
 	var sb strings.Builder
+	if drawBool(t, "dblslash", 12) {
+		// an empty first segment: the path starts with "//" (legal; must not be read as an authority)
+		sb.WriteByte('/')
+	}
 	for i := 0; i < segs; i++ {
 		sb.WriteByte('/')
 		switch rapid.IntRange(0, 5).Draw(t, "segkind") {
@@ -222,7 +226,20 @@ func drawC08(t *rapid.T) *Case {
 					rp.Chunks = drawPieces(t, len(rp.Body), "rchunk")
 				}
 				if len(rp.Body) > 0 && drawBool(t, "resptrailers", 25) {
-					rp.Trailer = [][2]string{{"X-Resp-Trailer", "rt-" + drawToken(t, "rt", 4)}}
+					// announced in the Trailer header, unannounced (late), or both; a trailer may have two values
+					ann := [][2]string{{"X-Resp-Trailer", "rt-" + drawToken(t, "rt", 4)}}
+					if drawBool(t, "rt2v", 25) {
+						ann = append(ann, [2]string{"X-Resp-Trailer", "rt2-" + drawToken(t, "rt2", 3)})
+					}
+					late := [][2]string{{"X-Late-Trailer", "lt-" + drawToken(t, "lt", 4)}}
+					switch rapid.IntRange(0, 3).Draw(t, "rtmode") {
+					case 0, 1:
+						rp.Trailer = ann
+					case 2:
+						rp.LateTrailer = late
+					case 3:
+						rp.Trailer, rp.LateTrailer = ann, late
+					}
 				}
 			}
 			p.Backend.Resp[tag] = rp
@@ -292,7 +309,7 @@ func drawC08(t *rapid.T) *Case {
 	for ci := 0; ci < nc; ci++ {
 		fmt.Fprintf(&sb, " | c%d(%s):", ci, metas[ci].Proto)
 		for _, rq := range aux.Reqs[ci] {
-			fmt.Fprintf(&sb, " %s %s hdrs=%d body=%d trailers=%d -> %d body=%d chunks=%d trailers=%d;", rq.Spec.Method, rq.Spec.Path, len(rq.Spec.Header), len(rq.Spec.Body), len(rq.Trailers), rq.Resp.Status, len(rq.Resp.Body), len(rq.Resp.Chunks), len(rq.Resp.Trailer))
+			fmt.Fprintf(&sb, " %s %s hdrs=%d body=%d trailers=%d -> %d body=%d chunks=%d trailers=%d+%d;", rq.Spec.Method, rq.Spec.Path, len(rq.Spec.Header), len(rq.Spec.Body), len(rq.Trailers), rq.Resp.Status, len(rq.Resp.Body), len(rq.Resp.Chunks), len(rq.Resp.Trailer), len(rq.Resp.LateTrailer))
 		}
 	}
 	c.Summary = sb.String()
@@ -566,14 +583,24 @@ func oracleC08(w *World, c *Case) {
 					w.Violate("response_header_altered", "response_header_altered", "%s: response header %s arrived as %q, back-end sent %q", where, kv[0], truncStrings(got), truncStrings(want))
 				}
 			}
-			if len(rp.Trailer) > 0 && rq.Spec.Method != "HEAD" {
+			if len(rp.Trailer)+len(rp.LateTrailer) > 0 && rq.Spec.Method != "HEAD" {
 				tr := clientTrailers(w, ci, ri, tag)
-				for _, kv := range rp.Trailer {
-					if got := tr[strings.ToLower(kv[0])]; !sameStrings(got, []string{kv[1]}) {
-						w.Violate("response_trailer_altered", "response_trailer_altered", "%s: response trailer %s arrived as %q, back-end sent %q", where, kv[0], got, kv[1])
+				all := append(append([][2]string{}, rp.Trailer...), rp.LateTrailer...)
+				seen := map[string]bool{}
+				for _, kv := range all {
+					name := strings.ToLower(kv[0])
+					if seen[name] {
+						continue
+					}
+					seen[name] = true
+					if got, want := tr[name], sentValues(all, name); !sameStrings(got, want) {
+						w.Violate("response_trailer_altered", "response_trailer_altered", "%s: response trailer %s arrived as %q, back-end sent %q", where, kv[0], got, want)
 					}
 				}
 				w.Probe("response_trailers_checked")
+				if len(rp.Trailer) > 0 && len(rp.LateTrailer) > 0 {
+					w.Probe("announced_and_late_response_trailers")
+				}
 			}
 			w.Probe("exchanges_compared")
 			if len(rq.Spec.Body) >= 1<<20 || len(rp.Body) >= 1<<20 {
